@@ -11,6 +11,8 @@
  *   FCV_KILL   K:before | K:after    _exit(137) just before / after the K-th relevant mutating call
  *   FCV_PAUSE  CLASS:K:FIFO_OUT:FIFO_IN   at the K-th relevant call of CLASS (R|M|O = open for read)
  *              write one byte to FIFO_OUT and block until a byte arrives on FIFO_IN
+ *   FCV_NOLOCK_DIR=DIR   fcntl record locks (F_SETLK, F_SETLKW, F_OFD_SETLK) on files below DIR fail with
+ *              EOPNOTSUPP, like on a file system without lock support
  *   FCV_NOATIME_EPERM=1   every open of a relevant file with O_NOATIME fails with EPERM, as it does for a
  *              user who is neither the owner of the file nor privileged (the file itself stays readable)
  *   FCV_JITTER=SEED   schedule perturbation: at every relevant call a pseudo-random function of (SEED, call
@@ -61,6 +63,7 @@ static atomic_long read_count = 0;
 static atomic_long openr_count = 0;
 static unsigned long jitter_seed = 0;
 static int noatime_eperm = 0;
+static char nolock_dir[4096];
 static long kill_k = -1;
 static int kill_after = 0;
 static char pause_class = 0;
@@ -124,6 +127,8 @@ static void init(void) {
     if (l && *l) log_fd = syscall(SYS_openat, AT_FDCWD, l, O_WRONLY | O_CREAT | O_APPEND | O_CLOEXEC, 0644);
     const char *e = getenv("FCV_FICLONE_EMULATE");
     ficlone_emulate = e && *e == '1';
+    const char *nl = getenv("FCV_NOLOCK_DIR");
+    if (nl && *nl) strncpy(nolock_dir, nl, sizeof(nolock_dir) - 1);
     const char *na = getenv("FCV_NOATIME_EPERM");
     noatime_eperm = na && *na == '1';
     const char *j = getenv("FCV_JITTER");
@@ -606,6 +611,38 @@ int fstat64(int fd, struct stat64 *st) {
     after(ka_, s_, 'R', "stat", fp_, NULL, r, e);
     errno = e;
     return r;
+}
+
+static int fcntl_common(int (*real)(int, int, ...), int fd, int cmd, void *arg) {
+    if (nolock_dir[0] && (cmd == F_SETLK || cmd == F_SETLKW || cmd == 37 /* F_OFD_SETLK */ || cmd == 38 /* F_OFD_SETLKW */)) {
+        char fp[8192];
+        size_t n = strlen(nolock_dir);
+        if (fdp_get(fd, fp, sizeof(fp)) && !strncmp(fp, nolock_dir, n) && (fp[n] == '/' || fp[n] == 0)) {
+            long s0 = atomic_fetch_add(&seq, 1) + 1;
+            logcall(s0, 'R', "lock", fp, NULL, -1, EOPNOTSUPP, "NOLOCK-DIR");
+            errno = EOPNOTSUPP;
+            return -1;
+        }
+    }
+    return real(fd, cmd, arg);
+}
+
+int fcntl(int fd, int cmd, ...) {
+    REAL(fcntl);
+    va_list ap;
+    va_start(ap, cmd);
+    void *arg = va_arg(ap, void *);
+    va_end(ap);
+    return fcntl_common(real_fcntl, fd, cmd, arg);
+}
+
+int fcntl64(int fd, int cmd, ...) {
+    REAL(fcntl64);
+    va_list ap;
+    va_start(ap, cmd);
+    void *arg = va_arg(ap, void *);
+    va_end(ap);
+    return fcntl_common(real_fcntl64, fd, cmd, arg);
 }
 
 int ioctl(int fd, unsigned long req, ...) {
